@@ -9,6 +9,7 @@ import (
 	"math/rand"
 	"os"
 	"runtime"
+	"strings"
 	"sync"
 	"sync/atomic"
 	"testing"
@@ -381,6 +382,22 @@ func c19Model() porcupine.Model {
 	}
 }
 
+// c19ParkedInNotify: the header and frames of a goroutine that is parked
+// acquiring a sync.RWMutex inside (*Watcher).notify, or "".
+func c19ParkedInNotify() string {
+	buf := make([]byte, 4<<20)
+	buf = buf[:runtime.Stack(buf, true)]
+	for _, g := range strings.Split(string(buf), "\n\n") {
+		if strings.Contains(g, "netstate.(*Watcher).notify") && strings.Contains(g, "sync.(*RWMutex).") && (strings.Contains(g, "[sync.RWMutex") || strings.Contains(g, "[semacquire")) {
+			if len(g) > 1500 {
+				g = g[:1500]
+			}
+			return g
+		}
+	}
+	return ""
+}
+
 func c19Linearizability(t *testing.T, r *vlib.Run) {
 	rr := r.Rand("c19", "lin")
 	n := r.Pick(500, 200000)
@@ -420,6 +437,7 @@ func c19Linearizability(t *testing.T, r *vlib.Run) {
 			plans[k] = plan{ifs[sr.Intn(2)], Change(1 + sr.Intn(int(LinkAny))), 4 + sr.Intn(8), sr.Intn(3)}
 		}
 		nnot := 6 + sr.Intn(14)
+		filler := []int{0, 40, 400, 2000}[i%4]
 		notes := make([]c19In, nnot)
 		for k := range notes {
 			notes[k] = c19In{Op: "notify", Iface: ifs[sr.Intn(2)], Change: vChanges[sr.Intn(len(vChanges))]}
@@ -478,7 +496,15 @@ func c19Linearizability(t *testing.T, r *vlib.Run) {
 				for _, nt := range notes {
 					nt := nt
 					rec(&shared, 100, nt, func() string {
-						notify(changeSet{nt.Iface: []Change{nt.Change}})
+						// one batch of the OS source: the interface of interest among many
+						// others nobody asked about (a notification then takes long enough
+						// for a Subscribe to arrive in the middle of it)
+						cs := make(changeSet, 1+filler)
+						for q := 0; q < filler; q++ {
+							cs[fmt.Sprintf("veth%d", q)] = []Change{LinkUp}
+						}
+						cs[nt.Iface] = []Change{nt.Change}
+						notify(cs)
 						return ""
 					})
 				}
@@ -499,9 +525,27 @@ func c19Linearizability(t *testing.T, r *vlib.Run) {
 		go func() { wg.Wait(); close(done) }()
 		select {
 		case <-done:
-		case <-time.After(30 * time.Second):
-			r.Inconclusive(id, "history did not complete within 30 s of real time (blocked notify?)")
-			continue
+		case <-time.After(20 * time.Second):
+			// Slow, or stuck?  Two goroutine dumps 5 s apart: the same watcher goroutine
+			// parked on the watcher's lock inside notify in both, and the history still
+			// incomplete, is a notification that blocks the watcher.
+			d1 := c19ParkedInNotify()
+			select {
+			case <-done:
+				r.Count("slow_histories", 1)
+			case <-time.After(5 * time.Second):
+			}
+			d2 := c19ParkedInNotify()
+			select {
+			case <-done:
+			default:
+				if d1 != "" && d1 == d2 {
+					r.Violation(id, "notify-blocked", "a notification is parked on the watcher's own lock (the same goroutine in two dumps 5 s apart) while a Subscribe waits for it: the watcher is blocked, Watch never ends and no subscriber is released", map[string]any{"seed": seed, "goroutine": d2})
+					return // goroutines of this history are stuck for good
+				}
+				r.Inconclusive(id, "history did not complete within 25 s of real time and no goroutine is parked in notify")
+				continue
+			}
 		}
 		if p := pan.Load(); p != nil {
 			r.Violation(id, "panic", fmt.Sprintf("concurrent Subscribe/notify/end-of-watch panicked: %v", p), map[string]any{"seed": seed})
